@@ -313,6 +313,102 @@ func (s Segment) Remove() error {""")]),
 		deletedOffsets[msg.Offset] = struct{}{}
 	}
 	return deletedOffsets, deletedSize, err""")]),
+ ("publish: time default through a local and a helper", [("log_writer.go", """		if msgs[i].Time.IsZero() {
+			msgs[i].Time = time.Now().UTC()
+		}
+""", """		msgs[i].Time = defaultTime(msgs[i].Time)
+"""), ("log_writer.go", "func (w *writer) ReopenReader() (*reader, int64, int64) {", """func defaultTime(t time.Time) time.Time {
+	if t.IsZero() {
+		return time.Now().UTC()
+	}
+	return t
+}
+
+func (w *writer) ReopenReader() (*reader, int64, int64) {""")]),
+ ("publish: index item written through a helper, append through a local", [("log_writer.go", """		if err := w.items.Write(items[i]); err != nil {
+			return OffsetInvalid, err
+		}
+		indexTime = items[i].Timestamp
+	}
+
+	return w.index.append(items), nil""", """		if err := w.writeItem(items[i]); err != nil {
+			return OffsetInvalid, err
+		}
+		indexTime = items[i].Timestamp
+	}
+
+	next := w.index.append(items)
+	return next, nil"""), ("log_writer.go", "func (w *writer) ReopenReader() (*reader, int64, int64) {", """func (w *writer) writeItem(it index.Item) error {
+	return w.items.Write(it)
+}
+
+func (w *writer) ReopenReader() (*reader, int64, int64) {""")]),
+ ("recover: early exit when the log is intact, != 0 remainder test", [("pkg/segment/segment.go", """	if corrupted {
+		if err := os.Rename(restore.Path, log.Path); err != nil {
+			return fmt.Errorf("restore log rename: %w", err)
+		}
+	} else {
+		if err := os.Remove(restore.Path); err != nil {
+			return fmt.Errorf("restore log delete: %w", err)
+		}
+	}
+""", """	if !corrupted {
+		if err := os.Remove(restore.Path); err != nil {
+			return fmt.Errorf("restore log delete: %w", err)
+		}
+	} else if err := os.Rename(restore.Path, log.Path); err != nil {
+		return fmt.Errorf("restore log rename: %w", err)
+	}
+"""), ("pkg/index/format.go", """	if dataSize%itemSize > 0 {
+		return nil, errIndexSize
+	}""", """	if rest := dataSize % itemSize; rest != 0 {
+		return nil, errIndexSize
+	}""")]),
+ ("GetByTime: errors.Is chain instead of switch", [("log.go", """		switch msg, err := rdr.GetByTime(ts, tctx); err {
+		case nil:
+			return msg, nil
+		case index.ErrTimeIndexEmpty:
+			// only the head can be empty, the segment before it is the last one with messages
+			if i == 0 {
+				return message.Invalid, err
+			}
+			readers = readers[:i]
+		case index.ErrTimeBeforeStart:
+			// not in this segment, try the rest
+			if i == 0 {
+				return rdr.Get(message.OffsetOldest)
+			}
+		case index.ErrTimeAfterEnd:
+			// time is between end of this and begin next
+			if i < len(readers)-1 {
+				nextRdr := readers[i+1]
+				return nextRdr.Get(message.OffsetOldest)
+			}
+			return message.Invalid, errTimeNotFound
+		default:
+			return message.Invalid, err
+		}""", """		msg, err := rdr.GetByTime(ts, tctx)
+		if err == nil {
+			return msg, nil
+		}
+		if errors.Is(err, index.ErrTimeIndexEmpty) {
+			if i == 0 {
+				return message.Invalid, err
+			}
+			readers = readers[:i]
+		} else if errors.Is(err, index.ErrTimeBeforeStart) {
+			if i == 0 {
+				return rdr.Get(message.OffsetOldest)
+			}
+		} else if errors.Is(err, index.ErrTimeAfterEnd) {
+			if i < len(readers)-1 {
+				return readers[i+1].Get(message.OffsetOldest)
+			}
+			return message.Invalid, errTimeNotFound
+		} else {
+			return message.Invalid, err
+		}""")]),
+ ("getIndexMarked-independent: NewAt spelled out", [("pkg/segment/segment.go", """		Segment: s.NewAt(s.Offset),""", """		Segment: New(s.Dir, s.Offset, s.AutoSync),""")]),
 ]
 
 def main():
